@@ -817,8 +817,31 @@ def strip_order_known(case):
     return case
 
 
+def _guard_batch(ctx, res):
+    """no exception inside a model-comparison callback may end the run: it is recorded as a divergence"""
+    if getattr(ctx.batch, '_guarded', False):
+        return
+    add, add_many = ctx.batch.add, ctx.batch.add_many
+
+    def wrap(cb, req):
+        def guarded(ans):
+            try:
+                cb(ans)
+            except core.LeanError:
+                raise
+            except Exception as e:  # noqa: BLE001
+                res.diverge(f'comparison with the model failed: {type(e).__name__}: {str(e)[:150]}', {'kind': 'model-answer'}, str(ans)[:300], str(req)[:300])
+
+        return guarded
+
+    ctx.batch.add = lambda req, cb: add(req, wrap(cb, req))
+    ctx.batch.add_many = lambda reqs, cb: add_many(reqs, wrap(cb, reqs))
+    ctx.batch._guarded = True
+
+
 def check(ctx) -> Result:
     res = Result(rule=RULE, tolerance='exact (bit patterns of doubles, labels, names)')
+    _guard_batch(ctx, res)
     rng = ctx.rng
     for c in CORPUS:
         run_case(ctx, res, c)
